@@ -18,7 +18,22 @@ RT == << <<<<48, 46, 48>>, <<0, 0, 0, 0, 0, 0, 0, 0>>>>,                        
 \* binary dates: struct.pack('<d', epoch seconds) of the instant
 DT == << <<<<0, 0, 0, 0, 0, 0, 0, 0>>, <<1970, 1, 1, 0, 0, 0, 0>>>>,
          <<<<0, 0, 0, 112, 34, 131, 215, 65>>, <<2020, 1, 1, 12, 0, 0, 0>>>>,
-         <<<<20, 4, 192, 225, 110, 19, 216, 65>>, <<2021, 3, 14, 7, 30, 15, 249>>>> >>
+         <<<<20, 4, 192, 225, 110, 19, 216, 65>>, <<2021, 3, 14, 7, 30, 15, 249>>>>,
+         \* instants BEFORE the epoch with a fractional second (negative, non-integral timestamps) and around them
+         <<<<0, 0, 0, 0, 0, 0, 248, 191>>, <<1969, 12, 31, 23, 59, 58, 500000>>>>,             \* -1.5
+         <<<<0, 0, 0, 0, 0, 0, 224, 191>>, <<1969, 12, 31, 23, 59, 59, 500000>>>>,             \* -0.5
+         <<<<0, 0, 0, 0, 0, 0, 244, 191>>, <<1969, 12, 31, 23, 59, 58, 750000>>>>,             \* -1.25
+         <<<<0, 0, 0, 0, 12, 24, 245, 192>>, <<1969, 12, 30, 23, 59, 59, 250000>>>>,           \* -86400.75
+         <<<<141, 237, 181, 160, 247, 198, 176, 190>>, <<1969, 12, 31, 23, 59, 59, 999999>>>>, \* -0.000001
+         <<<<0, 0, 0, 0, 0, 0, 240, 191>>, <<1969, 12, 31, 23, 59, 59, 0>>>>,                  \* -1.0
+         <<<<0, 0, 0, 120, 67, 13, 107, 193>>, <<1969, 7, 20, 20, 17, 40, 250000>>>>,          \* -14182939.75
+         <<<<4, 0, 192, 255, 255, 255, 223, 193>>, <<1901, 12, 13, 20, 45, 52, 999999>>>>,     \* -2147483647.000001
+         <<<<90, 243, 3, 0, 0, 0, 224, 65>>, <<2038, 1, 19, 3, 14, 8, 123456>>>> >>            \* 2147483648.123456
+\* TLC checks the constants itself: every double above decodes, in exact arithmetic, to the instant beside it;
+\* 0.0078125 s = 7812.5 us is a tie and goes to the even microsecond
+ASSUME \A k \in 1..Len(DT) : DateUs(DT[k][1]) = CivilUs(DT[k][2])
+ASSUME DateUs(<<0, 0, 0, 0, 0, 0, 128, 63>>) = CivilUs(<<1970, 1, 1, 0, 0, 0, 7812>>)
+ASSUME CivilUs(<<1969, 12, 31, 23, 59, 58, 500000>>) = <<1>> \o LOfNat(1500000) /\ CivilUs(<<1970, 1, 1, 0, 0, 0, 0>>) = <<0>>
 
 Reals == {V("real", RT[k][2]) : k \in 1..Len(RT)}
 Dates == {V("date", DT[k][2]) : k \in 1..Len(DT)}
@@ -34,7 +49,7 @@ Bins == {V("bin", b) : b \in {<<1, 10>>, <<2, 32>>, <<>>, <<0>>, <<10, 255>>, <<
 Uris == {V("uri", b) : b \in {<<>>, <<104, 116, 116, 112, 58, 47, 47, 120>>, <<97, 34, 92>>}}
 LeavesA == {V("undef", <<>>), V("bool", <<0>>), V("bool", <<1>>)} \cup Ints \cup Reals \cup Uuids \cup Strs \cup Bins \cup Uris \cup Dates
 LeavesB == {V("undef", <<>>), V("bool", <<1>>), V("int", <<255, 255, 255, 255>>), V("str", <<97, 10, 98>>),
-            V("uri", <<104, 116, 116, 112, 58, 47, 47, 120>>), V("date", DT[2][2])}
+            V("uri", <<104, 116, 116, 112, 58, 47, 47, 120>>), V("date", DT[4][2])}
            \cup (IF Big THEN {V("real", RT[3][2]), V("bin", <<10, 255>>), V("uuid", [k \in 1..16 |-> 0]), V("str", <<39>>)} ELSE {})
 Keys == {<<>>, <<97>>, <<98, 39>>} \cup (IF Big THEN {<<195, 169>>} ELSE {})
 
